@@ -664,11 +664,15 @@ def ext_wf(e):
     return len(e.ltw) in (0, 2) and len(e.piecewise) in (0, 3) and len(e.seamless_splice) in (0, 5)
 
 def ext_expected(e):
-    """bytes of the extension: ISO layout, except that the library's length byte also counts itself
-    (see notes/mpeg.md, observation E1) -- body compared with the Spec, length byte with the code's convention"""
-    r = _spec([gen.F("spec.Ext.encode", _o(e.ltw or None), _o(e.piecewise or None), _o(e.seamless_splice or None))])[0]
-    iso = bytes.fromhex(r[4:])
-    return bytes([iso[0] + 1]) + iso[1:]
+    """bytes of the extension as the library codes it: `Spec.MPEG.extensionAsCoded` (ISO body, length byte
+    counting itself -- notes/mpeg.md, observation E1).  The ISO-conformant `Spec.MPEG.afExtension` is asked
+    too and must differ from it by exactly +1 in the first byte (Lean: `Ext_asCoded_iso_plus_one`)."""
+    args = (_o(e.ltw or None), _o(e.piecewise or None), _o(e.seamless_splice or None))
+    rc, ri = _spec([gen.F("spec.Ext.asCoded", *args), gen.F("spec.Ext.encode", *args)])
+    coded, iso = bytes.fromhex(rc[4:]), bytes.fromhex(ri[4:])
+    if coded != bytes([(iso[0] + 1) % 256]) + iso[1:]:
+        raise AssertionError("Spec.extensionAsCoded %s is not Spec.afExtension %s with length byte + 1" % (hexb(coded), hexb(iso)))
+    return coded
 
 def af_wf(af):
     """every part absent or of its size, flags not set without their part, everything fits one byte"""
